@@ -15,7 +15,10 @@ file systems must agree.  The oracle restates the property over the observation 
 What a produced file holds is its canonical content tree (all attributes and typed values); for valid
 inputs it must equal the content of the abstract document the input was rendered from.  The stream
 "runs" repeats the tools in one process over shared output locations: every run must create its own
-new directory and leave everything that was there before alone.
+new directory and leave everything that was there before alone.  Between the runs the input
+directories are edited and the time stamps of inputs and older results are set in every relation to
+each other: after every run each output must hold the content of its source as it is then
+(C17.convert_dir_output_current; the model starts from the file system the run finds).
 """
 import hashlib
 import io
@@ -87,7 +90,11 @@ KIND_EXT = {"xml10w": ".xml", "xml11w": ".xml", "xml10": ".xml", "json10": ".jso
 CLI_KINDS = sorted(KIND_EXT)
 FC_GOOD = {"v1_1": ["xml10", "xml11", "xml10w", "xml10l", "xml10b"], "other": ["xml11", "odml11", "xml11w", "xml11u"]}
 FC_BAD = ["empty", "text", "malformed", "json11", "binary", "blank"]
-FC_FORMATS = ["v1_1", "odml", "turtle", "xml", "nt", "n3", "json-ld", "pretty-xml", "ttl"]
+FC_FORMATS = ["v1_1", "odml", "turtle", "xml", "nt", "n3", "json-ld", "pretty-xml", "ttl", "ntriples", "nt11", "trig"]
+# target formats that share a file ending: a second run with the sibling format into the same output
+# directory writes to the same paths as the first
+FC_SIBLINGS = {"xml": "pretty-xml", "pretty-xml": "xml", "turtle": "ttl", "ttl": "turtle", "nt": "ntriples",
+               "ntriples": "nt11", "nt11": "nt"}
 DIR_NAMES = ["in", "in+dir(1)", "in[1]", "c++", "in.d", "a b", "in$", "x{2}", "in|out", "in*x", "in?",
              "^in", "in\\d", "(in)", "data"]
 # how the directories are spelled on the command line: absolute, with a trailing separator, relative
@@ -98,7 +105,7 @@ SUB_NAMES = ["sub", "main", "x", "in", "s.1", "a+b"]
 # "_conv" inside the name (a name that *ends* in _conv next to its prefix: systematic block, w06)
 STEM_FORMS = [u"a.b%d", u"sp ace%d", u"ü%d", u"x[%d]", u"p+q(%d)", u"UP%d", u"tr.%d.", u"-dash%d", u"%d",
               u"c_conv%d", u"st*r%d", u"q?%d", u"am&p%d", u"perc%%s%d", u"quo'te%d", u"{%d}", u"xml%d.json"]
-RDF_BY_EXT = {".rdf": "xml", ".ttl": "turtle", ".nt": "nt", ".n3": "n3", ".jsonld": "json-ld"}
+RDF_BY_EXT = {".rdf": "xml", ".ttl": "turtle", ".nt": "nt", ".n3": "n3", ".jsonld": "json-ld", ".trig": "trig"}
 
 
 # ----------------------------------------------------------------------------- abstract documents
@@ -624,7 +631,17 @@ def signature(path):
         if ext in RDF_BY_EXT:
             import rdflib
             graph = rdflib.Graph()
-            graph.parse(path, format=RDF_BY_EXT[ext])
+            if ext == ".trig":
+                # a format with named graphs: read all of them and look at the triples together
+                import warnings
+                with warnings.catch_warnings():
+                    warnings.simplefilter("ignore")
+                    quads = rdflib.ConjunctiveGraph()
+                    quads.parse(path, format="trig")
+                    for triple in quads.triples((None, None, None)):
+                        graph.add(triple)
+            else:
+                graph.parse(path, format=RDF_BY_EXT[ext])
             return tree_sig("RDF:", rdf_tree(graph))
         return "OTHER"
     except Exception as exc:
@@ -654,29 +671,62 @@ def all_paths(root):
 # the trees are small and short-lived: a memory file system, where there is one, keeps the run time
 # independent of the load on the disk
 TMP_ROOT = "/dev/shm" if os.path.isdir("/dev/shm") and os.access("/dev/shm", os.W_OK | os.X_OK) else None
-OLD_TIME = 946684800          # 2000-01-01: every file present before a run is given this mtime
+OLD_TIME = 946684800          # 2000-01-01: the mtime of every file present before a run, by default
+NEW_TIME = 1262304000         # 2010-01-01
+FAR_TIME = 4102444800         # 2100-01-01: later than any run of the check
+# The time stamps the files carry when a run starts (case["times"]): a property of the history, not of the
+# content - files restored from an archive keep old time stamps, clocks differ between machines, a
+# checkout sets everything to "now".  Nothing in the property depends on them, so every relation
+# between the time stamps of the inputs and of what the output location already holds is in scope:
+# inputs older / newer than everything else, inputs or old outputs in the future, every file its own
+# time (epoch 0, one second apart, around 2^31), realistic recent times.
+TIME_POOL = [0, 1, OLD_TIME - 1, OLD_TIME, OLD_TIME + 1, NEW_TIME, 2 ** 31 - 1, 2 ** 31 + 5, FAR_TIME]
+TIME_MODES = ["old", "in_older", "in_newer", "in_future", "out_future", "mixed", "recent"]
 
 
-def age_files(root):
-    """Snapshot {relative path: sha1} of all files under root; their mtime is set to OLD_TIME so that
-    a file written again with the same bytes is still seen as written."""
-    snap = hashes(root)
-    for rel in snap:
-        os.utime(os.path.join(root, rel), (OLD_TIME, OLD_TIME))
+def assigned_time(rel, is_input, times, now):
+    mode = (times or {}).get("mode", "old")
+    if mode == "in_older":
+        return OLD_TIME if is_input else NEW_TIME
+    if mode == "in_newer":
+        return NEW_TIME if is_input else OLD_TIME
+    if mode == "in_future":
+        return FAR_TIME if is_input else OLD_TIME
+    if mode == "out_future":
+        return OLD_TIME if is_input else FAR_TIME
+    if mode == "recent":                        # inputs two days old, everything else one day old
+        return now - 172800 if is_input else now - 86400
+    if mode == "mixed":
+        digest = hashlib.sha1((u"%s:%s" % (times.get("salt", 0), rel)).encode("utf-8", "surrogatepass")).digest()
+        return TIME_POOL[digest[0] % len(TIME_POOL)]
+    return OLD_TIME
+
+
+def age_files(root, times=None, in_prefix=None):
+    """Snapshot {relative path: [sha1, mtime]} of all files under root.  Every file is given an explicit
+    mtime that is never the time of the run (all OLD_TIME by default, else by the time profile of the
+    case), so that a file written again with the same bytes is still seen as written."""
+    import time
+    now = int(time.time())
+    snap = {}
+    for rel, digest in hashes(root).items():
+        stamp = assigned_time(rel, bool(in_prefix) and rel.startswith(in_prefix), times, now)
+        os.utime(os.path.join(root, rel), (stamp, stamp))
+        snap[rel] = [digest, stamp]
     return snap
 
 
 def written_again(root, snap):
-    """Files of the snapshot that were removed, changed or written again (mtime no longer OLD_TIME)."""
+    """Files of the snapshot that were removed, changed or written again (mtime no longer the given one)."""
     out = []
-    for rel, digest in sorted(snap.items()):
+    for rel, (digest, stamp) in sorted(snap.items()):
         path = os.path.join(root, rel)
         if not os.path.isfile(path):
             out.append(rel)
             continue
         with io.open(path, "rb") as fh:
             same = hashlib.sha1(fh.read()).hexdigest() == digest
-        if not same or int(os.stat(path).st_mtime) != OLD_TIME:
+        if not same or int(os.stat(path).st_mtime) != stamp:
             out.append(rel)
     return out
 
@@ -689,8 +739,15 @@ def run_guarded(fn):
         return fw.exc_name(exc)
 
 
+# The format converter takes every file of the directory whatever its name ends in: a valid XML file may
+# carry no ending, another one, an upper-case one (spec["ext"], format converter streams only - the
+# command line tools look for *.odml / *.xml / *.json / *.yaml).
+FC_EXTS = ["", ".txt", ".XML", ".Xml", ".ODML", ".odml.bak", ".xml.", ".rdf", ".ttl"]
+
+
 def file_name(spec):
-    return "%s%s" % (spec["stem"], KIND_EXT[spec["kind"]])
+    ext = spec.get("ext")
+    return "%s%s" % (spec["stem"], KIND_EXT[spec["kind"]] if ext is None else ext)
 
 
 def content_bytes(spec):
@@ -713,10 +770,38 @@ def write_inputs(in_dir, files):
         if not os.path.isdir(folder):
             os.makedirs(folder)
         if spec["kind"].startswith("dir_"):
-            os.makedirs(os.path.join(folder, file_name(spec)))
+            if not os.path.isdir(os.path.join(folder, file_name(spec))):
+                os.makedirs(os.path.join(folder, file_name(spec)))
             continue
         with io.open(os.path.join(folder, file_name(spec)), "wb") as fh:
             fh.write(content_bytes(spec))
+
+
+def spec_rel(spec):
+    return os.path.join(spec["sub"], file_name(spec)) if spec["sub"] else file_name(spec)
+
+
+def diff_files(old, new):
+    """The edits that bring an input directory from the state `old` to the state `new` (lists of file
+    specs): paths to remove (gone, or a directory where a file comes / a file where a directory comes)
+    and specs to write (new or with other content)."""
+    old_map = dict((spec_rel(s), s) for s in old)
+    new_map = dict((spec_rel(s), s) for s in new)
+    is_dir = lambda s: s["kind"].startswith("dir_")
+    remove = sorted(rel for rel, s in old_map.items()
+                    if rel not in new_map or is_dir(s) != is_dir(new_map[rel]))
+    write = [s for rel, s in sorted(new_map.items()) if old_map.get(rel) != s]
+    return {"remove": remove, "write": write}
+
+
+def apply_edits(in_dir, edits):
+    for rel in edits.get("remove", []):
+        path = os.path.join(in_dir, rel)
+        if os.path.isdir(path):
+            shutil.rmtree(path)
+        elif os.path.lexists(path):
+            os.remove(path)
+    write_inputs(in_dir, edits.get("write", []))
 
 
 def cli_module(tool):
@@ -762,8 +847,8 @@ def alone_cli(tool, kind, doc=None):
     return _ALONE[key]
 
 
-def alone_fc(fmt, kind, doc=None):
-    key = ("fc", fmt, kind, fw.canon(doc))
+def alone_fc(fmt, kind, doc=None, ext=None):
+    key = ("fc", fmt, kind, fw.canon(doc), ext)
     if key in _ALONE:
         return _ALONE[key]
     from odml.tools.converters import FormatConverter
@@ -772,7 +857,10 @@ def alone_fc(fmt, kind, doc=None):
         in_dir = os.path.join(base, "in")
         out_dir = os.path.join(base, "o")
         os.makedirs(out_dir)
-        write_inputs(in_dir, [{"stem": "STEMX", "kind": kind, "tag": "TAGX", "sub": "", "doc": doc}])
+        one = {"stem": "STEMX", "kind": kind, "tag": "TAGX", "sub": "", "doc": doc}
+        if ext is not None:
+            one["ext"] = ext
+        write_inputs(in_dir, [one])
         res = run_guarded(lambda: FormatConverter.convert_dir(in_dir, out_dir, False, fmt))
         outs = {}
         for rel in hashes(out_dir):
@@ -812,7 +900,9 @@ class C17(fw.Check):
         "fixed_convert_dir_witness", "legacy_literal_replaces_every_occurrence",
         "batch_isolation_rdf_base_names", "exportable_file_gets_rdf", "converted_file_gets_rdf",
         "implicit_output_location",
-        "batch_inputs_unchanged_convert_dir_implicit"]]
+        "batch_inputs_unchanged_convert_dir_implicit",
+        "convert_dir_output_current", "convert_dir_output_current_render", "convert_dir_output_current_v1_1",
+        "convert_dir_rerun_after_edit", "convert_dir_rerun_witness"]]
     trusted_base = [
         "Lean 4.33.0 kernel; axioms propext, Classical.choice, Quot.sound only (audited per theorem)",
         "hand-written model lean/OdmlModel/Model/Batch.lean, tied to the repository by this correspondence run",
@@ -835,7 +925,11 @@ class C17(fw.Check):
             "renamed attributes) and every output is compared with the content of its source; other encodings, "
             "binary / blank files and directories named like files; directory arguments absolute / relative / "
             "dotted; exotic base names; stream 'runs': 2-5 runs in one process sharing output root / working "
-            "directory / output directory, with older material there; child interpreter with an ASCII locale. "
+            "directory / output directory, with older material there; between the runs the input directories "
+            "are edited (files replaced by other revisions / other kinds, added, removed) and every run starts "
+            "from its own time stamps (inputs older / newer than old results, future, epoch 0, mixed); the "
+            "format converter run five times into one location for every target format (twelve, trig included); "
+            "child interpreter with an ASCII locale and a fixed hash seed. "
             "Non-trivial = "
             "at least one output was produced and at least one file was skipped / refused, or the tree is "
             "nested; distinct = distinct canonical JSON of the case.")
@@ -866,42 +960,108 @@ class C17(fw.Check):
         rng.shuffle(out)
         return out
 
-    def gen_runs(self, rng):
+    def edit_files(self, rng, files, kinds, prefix):
+        """The next state of an input directory: 1-3 of {a file replaced by another revision (other
+        tag / other abstract document / the earlier text again), a file replaced by a file of another
+        kind under the same base name (other extension, valid <-> unconvertible where the kinds
+        allow it), a file added, a file removed}.  Base names stay unique."""
+        out = [dict(spec) for spec in files]
+        for _ in range(rng.choice([1, 1, 2, 3])):
+            op = rng.choice(["revise", "revise", "revise", "rekind", "add", "remove"])
+            if op == "remove":
+                if len(out) > 1:
+                    out.pop(rng.randrange(len(out)))
+                continue
+            if op == "add":
+                taken = set(spec["stem"] for spec in out)
+                num = len(out)
+                while "%sn%02d" % (prefix, num) in taken:
+                    num += 1
+                spec = {"stem": "%sn%02d" % (prefix, num), "kind": rng.choice(kinds), "tag": "t%d" % rng.randrange(100),
+                        "sub": rng.choice([""] + [s["sub"] for s in out])}
+            else:
+                idx = rng.randrange(len(out))
+                spec = dict(out.pop(idx))
+                spec.pop("doc", None)
+                spec["tag"] = rng.choice(["r%d" % rng.randrange(100), files[0]["tag"]])
+                if op == "rekind":
+                    spec["kind"] = rng.choice(kinds)
+            if spec["kind"] in DOC_KINDS and rng.random() < 0.5:
+                spec["doc"] = gen_doc(rng)
+            out.append(spec)
+        return out
+
+    def gen_runs(self, rng, focused=False):
         """2-5 runs in one process.  Input directories of three flavours (any kinds for the command
         line tools; XML of one version so that the format converter can take them); the command
         line runs share one output root (explicit, or the working directory), the converter runs
         share one explicit output directory or use <input>_<format>; the output locations may hold
         older material (directories and files named like outputs, results of earlier runs)."""
+        # Between two runs over the same input directory the directory may be edited (edit_files), and
+        # every run starts from its own time stamps (TIME_MODES): the history of a directory that is
+        # converted again and again.  `focused`: one input directory and one tool configuration for
+        # all runs (same format or a format with the same file ending, same output location), so
+        # that the later runs meet the results of the earlier ones.
+        KINDS = {"mixed": CLI_KINDS, "old_xml": ["xml10", "xml10w", "xml10b", "xml10l"],
+                 "new_xml": ["xml11", "odml11", "xml11w", "xml11u"]}
         inputs = []
-        for j in range(rng.randrange(1, 4)):
-            flavour = rng.choice(["mixed", "mixed", "old_xml", "new_xml"])
-            kinds = {"mixed": CLI_KINDS, "old_xml": ["xml10", "xml10w", "xml10b"],
-                     "new_xml": ["xml11", "odml11", "xml11w"]}[flavour]
+        for j in range(1 if focused else rng.randrange(1, 4)):
+            flavour = rng.choice(["mixed", "old_xml", "new_xml", "new_xml"] if focused else
+                                 ["mixed", "mixed", "old_xml", "new_xml"])
             name = "in%d" % j if rng.random() < 0.7 else "%s%d" % (rng.choice(DIR_NAMES), j)
-            inputs.append((name, flavour, self.files(rng, kinds, 3, rng.random() < 0.3, prefix="i%d" % j)))
+            inputs.append([name, flavour, self.files(rng, KINDS[flavour], 3, rng.random() < 0.3, prefix="i%d" % j)])
         one_root = rng.random() < 0.6
         runs = []
+        seen = set()
+        fixed = None
         for _ in range(rng.randrange(2, 6)):
-            name, flavour, files = rng.choice(inputs)
-            if flavour != "mixed" and rng.random() < 0.5:
+            slot = rng.choice(inputs)
+            name, flavour, files = slot
+            edits = None
+            if name in seen and rng.random() < (0.7 if focused else 0.4):
+                files = self.edit_files(rng, files, KINDS[flavour], "i%s" % name[-1:])
+                edits = diff_files(slot[2], files)
+                slot[2] = files
+            seen.add(name)
+            if fixed is not None:
+                run = dict(fixed, files=files)
+                if run["stream"] == "fc" and rng.random() < 0.3:
+                    run["fmt"] = FC_SIBLINGS.get(run["fmt"], run["fmt"])
+                if rng.random() < 0.2:
+                    run["recursive"] = not run["recursive"]
+            elif flavour != "mixed" and rng.random() < (0.8 if focused else 0.5):
                 fmt = "v1_1" if flavour == "old_xml" else rng.choice(FC_FORMATS[1:])
-                runs.append({"stream": "fc", "fmt": fmt, "recursive": rng.random() < 0.6,
-                             "explicit_out": rng.random() < 0.6, "in_name": name,
-                             "entry": rng.choice(["convert_dir", "convert"]), "trailing_sep": rng.random() < 0.2,
-                             "relative": rng.random() < 0.2, "files": files})
+                run = {"stream": "fc", "fmt": fmt, "recursive": rng.random() < 0.6,
+                       "explicit_out": rng.random() < 0.6, "in_name": name,
+                       "entry": rng.choice(["convert_dir", "convert"]), "trailing_sep": rng.random() < 0.2,
+                       "relative": rng.random() < 0.2, "files": files}
             else:
                 run = {"stream": "cli", "tool": rng.choice(["convert", "rdf", "rdf"]),
                        "recursive": rng.random() < 0.6, "explicit_out": rng.random() < 0.6, "in_name": name,
                        "arg_style": rng.choice(ARG_STYLES), "files": files}
                 if one_root:
                     run["root_name"] = "outroot"
-                runs.append(run)
+            if focused and fixed is None:
+                fixed = dict(run)
+            run.pop("edits", None)
+            run.pop("times", None)
+            if edits and (edits["remove"] or edits["write"]):
+                run["edits"] = edits
+            if rng.random() < 0.75:
+                run["times"] = {"mode": rng.choice(TIME_MODES), "salt": rng.randrange(1000)}
+            runs.append(run)
         pre = []
         if rng.random() < 0.6:
             stems = [f["stem"] for _n, _fl, fs in inputs for f in fs]
             for _ in range(rng.randrange(1, 5)):
                 stem = rng.choice(stems)
+                in_name = rng.choice(inputs)[0]
                 pre.append(rng.choice([
+                    # valid documents of unrelated content under the names of outputs, in the explicit
+                    # and in the made-up output directory of the format converter
+                    ["outdir/%s.xml" % stem, "DOC11:old"], ["outdir/%s.odml" % stem, "DOC11:old"],
+                    ["%s_odml/%s.odml" % (in_name, stem), "DOC11:old"], ["%s_v1_1/%s.xml" % (in_name, stem), "DOC11:old"],
+                    ["%s_turtle/%s.ttl" % (in_name, stem), "OLD"], ["%s_xml/keep.txt" % in_name, "OLD"],
                     ["outroot/odmlconv_old/%s_conv.xml" % stem, "OLD"], ["outroot/%s_conv.xml" % stem, "OLD"],
                     ["outroot/odmlconv_/", None], ["outroot/odmlconv_old/odmlrdf_old/%s.rdf" % stem, "OLD"],
                     ["cwd/odmlconv_old/odmlrdf_old/%s_conv.rdf" % stem, "OLD"], ["cwd/%s.rdf" % stem, "OLD"],
@@ -919,6 +1079,10 @@ class C17(fw.Check):
                               "explicit_out": rng.random() < 0.6, "in_name": rng.choice(DIR_NAMES),
                               "arg_style": rng.choice(ARG_STYLES),
                               "files": self.files(rng, CLI_KINDS, 6 if tool == "convert" else 4, nested)})
+                if rng.random() < 0.3:             # time stamps of the inputs: epoch 0 ... 2100
+                    cases[-1]["times"] = {"mode": rng.choice(["mixed", "in_future"]), "salt": rng.randrange(1000)}
+                if tool == "convert" and rng.random() < 0.15:
+                    cases[-1]["entry"] = "dep_note"
         # every bad kind between two good files, in both creation orders, for both tools
         bad_kinds = [k for k in CLI_KINDS if k.startswith(("empty", "text", "malformed", "othervocab"))]
         for tool in ("convert", "rdf"):
@@ -960,9 +1124,66 @@ class C17(fw.Check):
                     runs.append({"stream": "cli", "tool": tool, "recursive": len(runs) % 2 == 1,
                                  "explicit_out": explicit, "in_name": two[idx][0], "files": two[idx][1]})
                 cases.append({"stream": "runs", "pre": [], "runs": runs})
+        # no file at all, and no file at the top (all below, not recursive): nothing to do is not an error
+        below = [{"stem": "a", "kind": "xml11", "tag": "t1", "sub": "sub"}, {"stem": "b", "kind": "xml10", "tag": "t2", "sub": "sub/x"}]
+        for files in ([], below):
+            for explicit in (True, False):
+                for tool in ("convert", "rdf"):
+                    cases.append({"stream": "cli", "tool": tool, "recursive": not files, "explicit_out": explicit,
+                                  "in_name": "in", "files": files})
+                for fmt in ("v1_1", "odml", "turtle"):
+                    cases.append({"stream": "fc", "fmt": fmt, "recursive": not files, "explicit_out": explicit,
+                                  "in_name": "in", "entry": "convert_dir", "trailing_sep": False, "files": files})
+        # a directory converted again and again by the format converter into the same location, for
+        # every target format, with the explicit and with the made-up output directory: first run;
+        # `a` replaced by another revision, `b` removed, `c` added, all older than the results of the
+        # first run; the first revision of `a` back in place (recent time stamps, inputs older);
+        # `c` revised and - explicit directory - the format with the same file ending, old results
+        # dated in the future; last run without any change, inputs newer
+        f = lambda stem, kind, tag, sub="": {"stem": stem, "kind": kind, "tag": tag, "sub": sub}
+        for fmt in FC_FORMATS:
+            old = fmt == "v1_1"
+            for explicit in (True, False):
+                s0 = [f("a", "xml10" if old else "xml11", "t1"), f("b", "xml10w" if old else "odml11", "t2", "sub")]
+                s1 = [f("a", "xml10" if old else "xml11", "t9"), f("c", "xml10" if old else "xml11w", "t3", "sub")]
+                s2 = [s0[0], s1[1]]
+                s3 = [s0[0], dict(f("c", "xml10" if old else "xml11", "t4", "sub"), doc=full_doc(True))]
+                steps = [(s0, None, fmt), (s1, "in_older", fmt), (s2, "recent", fmt),
+                         (s3, "out_future", FC_SIBLINGS.get(fmt, fmt) if explicit else fmt), (s3, "in_newer", fmt)]
+                runs, prev = [], None
+                for files, mode, run_fmt in steps:
+                    run = {"stream": "fc", "fmt": run_fmt, "recursive": True, "explicit_out": explicit, "in_name": "in",
+                           "entry": "convert" if len(runs) % 2 else "convert_dir", "trailing_sep": False, "files": files}
+                    if prev is not None and prev != files:
+                        run["edits"] = diff_files(prev, files)
+                    if mode:
+                        run["times"] = {"mode": mode, "salt": len(runs)}
+                    runs.append(run)
+                    prev = files
+                pre = [] if fmt in ("v1_1", "odml") else [["outdir/a%s" % {"turtle": ".ttl"}.get(fmt, ".rdf"), "OLD"]]
+                cases.append({"stream": "runs", "pre": pre, "runs": runs})
+        # ... and by the two command line tools (every run makes its own new directory next to the old ones)
+        for tool in ("convert", "rdf"):
+            for explicit in (True, False):
+                s0 = [f("a", "xml10", "t1"), f("b", "json10", "t2"), f("k", "yaml11", "t5", "sub"), f("bad", "malformed", "t6")]
+                s1 = [f("a", "xml10", "t9"), f("c", "yaml10", "t3", "sub"), f("k", "yaml11", "t5", "sub"), f("bad", "xml10", "t6")]
+                s2 = [s0[0], s1[1], f("k", "text_yaml", "t5", "sub"), f("bad", "xml11", "t7")]
+                runs, prev = [], None
+                for files, mode in ((s0, None), (s1, "in_older"), (s2, "recent"), (s2, "mixed")):
+                    run = {"stream": "cli", "tool": tool, "recursive": True, "explicit_out": explicit, "in_name": "in",
+                           "files": files}
+                    if prev is not None and prev != files:
+                        run["edits"] = diff_files(prev, files)
+                    if mode:
+                        run["times"] = {"mode": mode, "salt": len(runs)}
+                    runs.append(run)
+                    prev = files
+                cases.append({"stream": "runs", "pre": [], "runs": runs})
         nruns = 30 if tier == "quick" else 1200
         for _ in range(nruns):
             cases.append(self.gen_runs(rng))
+        for _ in range(40 if tier == "quick" else 1200):
+            cases.append(self.gen_runs(rng, focused=True))
         nfc = 200 if tier == "quick" else 9000
         for _ in range(nfc):
             fmt = rng.choice(FC_FORMATS)
@@ -973,6 +1194,13 @@ class C17(fw.Check):
                           "entry": rng.choice(["convert_dir", "convert_dir", "convert"]),
                           "trailing_sep": rng.random() < 0.2, "relative": rng.random() < 0.2,
                           "files": self.files(rng, kinds, 4, True)})
+            for spec in cases[-1]["files"]:
+                # other file endings (not for names with a dot inside: "a.b0" / "a.b1" without an ending
+                # would share the base name "a")
+                if rng.random() < 0.15 and "." not in spec["stem"] and not spec["kind"].startswith("dir_"):
+                    spec["ext"] = rng.choice(FC_EXTS)
+            if rng.random() < 0.3:
+                cases[-1]["times"] = {"mode": rng.choice(["mixed", "in_future"]), "salt": rng.randrange(1000)}
         # the tools in a child interpreter whose locale encoding is ASCII, on files with wide text
         f = lambda stem, kind, tag, sub="": {"stem": stem, "kind": kind, "tag": tag, "sub": sub}
         wide = [f("w1", "xml10w", "t1"), f("w2", "xml11w", "t2", "sub"), f("a3", "json10", "t3"),
@@ -986,7 +1214,7 @@ class C17(fw.Check):
             subs.append({"stream": "fc", "fmt": fmt, "recursive": True, "explicit_out": fmt != "odml",
                          "in_name": "in+w", "entry": "convert_dir", "trailing_sep": False,
                          "files": [f("w%d" % i, k, "t%d" % i, "sub" if i else "") for i, k in enumerate(kinds)]})
-        cases.append({"stream": "locale", "cases": subs})
+        cases.append({"stream": "locale", "cases": subs, "hashseed": rng.randrange(1, 4000)})
         # ... and on JSON / YAML files that hold their non-ASCII text as UTF-8 (not as \u escapes),
         # next to the same documents in pure ASCII
         def wide_doc(raw):
@@ -1002,7 +1230,8 @@ class C17(fw.Check):
                for i, kind in enumerate(["json10", "yaml10", "json11", "yaml11", "xml10", "xml11"])]
         cases.append({"stream": "locale", "cases": [
             {"stream": "cli", "tool": "convert", "recursive": False, "explicit_out": True, "in_name": "in", "files": utf},
-            {"stream": "cli", "tool": "rdf", "recursive": False, "explicit_out": True, "in_name": "in", "files": utf}]})
+            {"stream": "cli", "tool": "rdf", "recursive": False, "explicit_out": True, "in_name": "in", "files": utf}],
+            "hashseed": 0})
         npath = 400 if tier == "quick" else 5000
         alpha = ["a", "b", ".", "/", "x", "_conv", ".xml", ".odml", ".ttl", "+", " "]
         for _ in range(npath):
@@ -1018,6 +1247,8 @@ class C17(fw.Check):
                 % os.path.dirname(os.path.abspath(__file__)))
         env = dict(os.environ, PYTHONUTF8="0", PYTHONCOERCECLOCALE="0", LC_ALL="C", LANG="C",
                    ODML_REPO=fw.REPO, PYTHONDONTWRITEBYTECODE="1")
+        if case.get("hashseed") is not None:       # process-level state: the order of sets / dicts of str
+            env["PYTHONHASHSEED"] = str(case["hashseed"])
         proc = subprocess.run([sys.executable, "-c", code], input=json.dumps(case).encode("ascii"),
                               env=env, stdout=subprocess.PIPE, stderr=subprocess.PIPE, timeout=900)
         for line in proc.stdout.decode("ascii", "replace").splitlines():
@@ -1054,6 +1285,8 @@ class C17(fw.Check):
                 continue
             if not os.path.isdir(os.path.dirname(path)):
                 os.makedirs(os.path.dirname(path))
+            if text.startswith("DOC11:"):       # a valid current-version document of unrelated content
+                text = content("xml11", text[len("DOC11:"):])
             with io.open(path, "w", encoding="utf-8") as fh:
                 fh.write(text)
         subs = []
@@ -1068,6 +1301,8 @@ class C17(fw.Check):
         if not os.path.isdir(in_dir):              # (a later run of the "runs" stream finds it there)
             os.makedirs(in_dir)
             write_inputs(in_dir, case["files"])
+        elif case.get("edits"):                    # ... and may find it edited since the last run
+            apply_edits(in_dir, case["edits"])
         out_root = os.path.join(base, case.get("root_name") or ("outroot" if case["explicit_out"] else "cwd"))
         if not os.path.isdir(out_root):
             os.makedirs(out_root)
@@ -1087,9 +1322,12 @@ class C17(fw.Check):
         glob = root.rglob if case["recursive"] else root.glob
         order = [str(p.absolute()) for pat in ("*.odml", "*.xml", "*.json", "*.yaml") for p in glob(pat)]
         before_hash = hashes(in_dir)
-        before_all = age_files(base)
+        before_all = age_files(base, case.get("times"), case["in_name"] + os.sep)
         before_paths = all_paths(base)
-        result = run_guarded(lambda: cli_module(tool).main(argv))
+        mod = cli_module(tool)
+        # (odmlconvert is also installed under its old name, which prints a note and calls main)
+        entry = getattr(mod, "dep_note", mod.main) if case.get("entry") == "dep_note" else mod.main
+        result = run_guarded(lambda: entry(argv))
         after_hash = hashes(in_dir)
         after_paths = all_paths(base)
         new = sorted(after_paths - before_paths)
@@ -1116,6 +1354,8 @@ class C17(fw.Check):
         if not os.path.isdir(in_dir):
             os.makedirs(in_dir)
             write_inputs(in_dir, case["files"])
+        elif case.get("edits"):
+            apply_edits(in_dir, case["edits"])
         out_dir = None
         if case["explicit_out"]:
             out_dir = os.path.join(base, "outdir")
@@ -1136,7 +1376,7 @@ class C17(fw.Check):
         else:
             entries = [[top, n] for n in os.listdir(top) if os.path.isfile(os.path.join(top, n))]
         before_hash = hashes(in_dir)
-        before_all = age_files(base)
+        before_all = age_files(base, case.get("times"), case["in_name"] + os.sep)
         before_paths = all_paths(base)
         if case["entry"] == "convert":
             argv = [in_arg, fmt] + (["-out", out_arg] if out_dir else []) + (["-r"] if case["recursive"] else [])
@@ -1156,15 +1396,18 @@ class C17(fw.Check):
         # what older files of the output directory hold (results of an earlier run that this run
         # did not write again)
         standing = {}
+        pre_out = []                               # what the output directory held when the run began
         where = out_dir or (os.path.join(base, implicit_rel) if implicit_there else None)
         if where:
+            where_rel = os.path.relpath(where, base) + os.sep
+            pre_out = sorted(rel for rel in before_all if rel.startswith(where_rel))
             for rel in hashes(where):
                 full = os.path.relpath(os.path.join(where, rel), base)
                 if full in before_all and full not in outputs:
                     standing[full] = signature(os.path.join(base, full))
         alone = {}
         for spec in case["files"]:
-            alone[file_name(spec)] = alone_fc(fmt, spec["kind"], spec.get("doc"))
+            alone[file_name(spec)] = alone_fc(fmt, spec["kind"], spec.get("doc"), spec.get("ext"))
         try:
             from odml.tools.converters.format_converter import CONVERSION_FORMATS
             ext = CONVERSION_FORMATS.get(fmt)
@@ -1173,7 +1416,7 @@ class C17(fw.Check):
         return {"base": base, "result": result, "inputs_same": all(after_hash.get(k) == v for k, v in before_hash.items()),
                 "changed_inputs": sorted(k for k in before_hash if after_hash.get(k) != before_hash[k]),
                 "new": new, "outputs": outputs, "entries": entries, "in_rel": case["in_name"], "touched": touched, "gone": gone, "standing": standing,
-                "implicit_there": implicit_rel if implicit_there and not out_dir else None,
+                "pre_out": pre_out, "implicit_there": implicit_rel if implicit_there and not out_dir else None,
                 "out_rel": "outdir" if out_dir else None, "alone": alone, "ext": ext,
                 "top": top, "in_arg": in_arg}
 
@@ -1246,9 +1489,13 @@ class C17(fw.Check):
                     (None if obs["alone"][name]["result"] == "ok" else "err")
             else:
                 render["IN:" + name] = val if val is not None else "err"
+        # the file system of the model holds the inputs and whatever the output directory held when
+        # the run began (results of earlier runs, unrelated files): C17.convert_dir_output_current says
+        # that a completed run writes every output again, from the bytes its source holds now
         reqs = [dict(P, op="convert_dir", fmt=mfmt, out=os.path.join(out_dir, ""),
                      entries=obs["entries"], convert=convert, render=render,
-                     fs=[[os.path.join(d, n), "IN:" + n] for d, n in obs["entries"]],
+                     fs=[[os.path.join(d, n), "IN:" + n] for d, n in obs["entries"]] +
+                        [[os.path.join(obs["base"], rel), "STANDING:" + rel] for rel in obs.get("pre_out", [])],
                      **{"in": obs["top"]})]
         if not case["explicit_out"]:
             reqs.append(dict(P, op="implicit_out", fmt=fmt, **{"in": obs["in_arg"]}))
@@ -1311,7 +1558,7 @@ class C17(fw.Check):
             if path in inputs:
                 if text != "IN:" + os.path.basename(path):
                     out.append("model changes input %s to %r" % (os.path.relpath(path, base), text))
-            elif text is not None:
+            elif text is not None and not text.startswith("STANDING:"):   # (else: left as it was)
                 written[os.path.relpath(os.path.normpath(os.path.join(base, path)), base)] = text
         if case["stream"] == "fc" and len(answers) > 1:
             made = self.fc_out_dir(case, obs)
@@ -1460,6 +1707,23 @@ class C17(fw.Check):
                             lacking.remove(sig)
                     if rest or lacking:
                         out.append("outputs %s do not carry the content of their sources %s" % (got, want))
+                # "each output ... with the content of its source", file by file: what stands at the
+                # output path of a source after the run (written by this run, or - weaker reading -
+                # left standing by it) holds what converting that source alone gives *now*; this is
+                # what tells a source that was replaced since an earlier run from its old output
+                if obs["result"] == "ok" and rel_out is not None:
+                    held = dict(obs.get("standing", {}))
+                    held.update(obs["outputs"])
+                    for spec in considered:
+                        al = obs["alone"][file_name(spec)]
+                        if len(al["outs"]) != 1:
+                            continue
+                        key, sig = list(al["outs"].items())[0]
+                        path = rel_out + (spec["sub"] + "/" if spec["sub"] else "") + subst(key, spec)
+                        if held.get(path) != subst(sig, spec):
+                            out.append("after the run the output %s does not hold the content of its source %s "
+                                       "as it is now: found %r, converting the source alone gives %r"
+                                       % (path, spec_rel(spec), held.get(path), subst(sig, spec)))
             if bad_out:
                 out.append("outputs do not load: %s" % bad_out)
             good = FC_GOOD["v1_1" if case["fmt"] == "v1_1" else "other"]
